@@ -123,8 +123,37 @@ def _expand(atom_list, node):
                                                 ast.Name)) and not (
                     isinstance(v, ast.Call) and not (
                         isinstance(v.func, ast.Name)
-                        and v.func.id == "bool")):
+                        and v.func.id in ("bool", "hasattr", "isinstance",
+                                          "callable"))):
                 sub = atoms(v, a.pol, a.origin)
+                if not (len(sub) == 1 and sub[0].text == a.text):
+                    out.extend(_expand(sub, node))
+                    a.expanded = True
+                    out.append(a)
+                    continue
+        # a flag kept on the object: `self.x = <test>` (the only store of
+        # self.x in this function, in front of the use) ... `if self.x:`
+        if isinstance(n, ast.Attribute) and isinstance(
+                n.value, ast.Name) and n.value.id == "self" and hasattr(
+                n, "_parent"):
+            fn_ = n
+            while fn_ is not None and not isinstance(
+                    fn_, (ast.FunctionDef, ast.AsyncFunctionDef)):
+                fn_ = getattr(fn_, "_parent", None)
+            sts = [s_ for s_ in ast.walk(fn_) if isinstance(s_, ast.Assign)
+                   and len(s_.targets) == 1 and isinstance(
+                       s_.targets[0], ast.Attribute) and isinstance(
+                       s_.targets[0].value, ast.Name)
+                   and s_.targets[0].value.id == "self"
+                   and s_.targets[0].attr == n.attr] if fn_ else []
+            if len(sts) == 1 and sts[0].lineno < getattr(n, "lineno", 0) \
+                    and isinstance(sts[0].value, (ast.Compare, ast.BoolOp,
+                                                  ast.UnaryOp, ast.Call)) \
+                    and not (isinstance(sts[0].value, ast.Call) and not (
+                        isinstance(sts[0].value.func, ast.Name)
+                        and sts[0].value.func.id in ("bool", "hasattr",
+                                                     "isinstance"))):
+                sub = atoms(sts[0].value, a.pol, a.origin)
                 if not (len(sub) == 1 and sub[0].text == a.text):
                     out.extend(_expand(sub, node))
                     a.expanded = True
